@@ -354,6 +354,14 @@ impl IpSender {
     }
 }
 
+/// verif-hooks: read access to the bind configuration of a sender.
+#[cfg(feature = "verif-hooks")]
+impl IpSender {
+    pub(super) fn verif_config(&self) -> Config {
+        self.config
+    }
+}
+
 #[derive(Debug, Clone)]
 pub(super) struct IpTransportsSender {
     /// Stored sorted by prefix len
